@@ -514,7 +514,7 @@ fn violation_class(rep: &Replay) -> String {
     format!("{}|{}|{}", v.property, v.oracle, site)
 }
 
-const C17_TARGETS: usize = 14;
+const C17_TARGETS: usize = 16;
 
 fn c17_target(rng: &mut Rng, which: usize) -> Op {
     let pick = Pick { kind: 0, k: rng.below(1 << 20) as u32 };
@@ -532,6 +532,18 @@ fn c17_target(rng: &mut Rng, which: usize) -> Op {
         10 => Op::RoundTrip { src: 0, dst: 0, enc: rng.below(crate::medium::NENC as u64) as u8 },
         11 => Op::Extend { slot: 0, how: 1, site: rng.below(g::CLONED_SITES.len() as u64) as u16, n: rng.range(1, 4) as u16, extra: 0, seed: rng.next_u64() },
         12 => Op::Crash { slot: 0 },
+        // Deserialization of a damaged stream: the destructors that run while the library cleans
+        // up after the error (or replaces the destination) are failure points as well.
+        14 | 15 => Op::Corrupt {
+            src: 0,
+            dst: 1,
+            enc: rng.below(crate::medium::NENC as u64) as u8,
+            faults: vec![StreamFault {
+                kind: (*rng.pick(&["cut", "cut", "del", "dup", "alt", "delgroup", "dupgroup", "swap"])).to_string(),
+                pos: rng.below(1 << 20) as usize,
+                arg: rng.below(8) as i64,
+            }],
+        },
         _ => Op::Entry {
             slot: 0,
             pick,
@@ -583,7 +595,10 @@ fn enumerate_c17(a: &Args, index: u64, out: &mut impl Write) -> Option<Replay> {
     for kind in 0..fault::NKINDS {
         let kname = fault::KIND_NAMES[kind];
         let n = counts[kind];
-        let modes: &[bool] = if kind == fault::Kind::Ser as usize || kind == fault::Kind::De as usize { &[false, true] } else { &[false] };
+        // (An injected `Err` inside the deserialization of a damaged stream is indistinguishable from
+        // the rejection the stream fault causes anyway, so only panics are injected there.)
+        let modes: &[bool] =
+            if (kind == fault::Kind::Ser as usize || kind == fault::Kind::De as usize) && !matches!(target, Op::Corrupt { .. }) { &[false, true] } else { &[false] };
         for as_error in modes {
             for k in 1..=n {
                 let mut ops = prefix.clone();
